@@ -37,6 +37,7 @@ PY = sys.executable or '/venv/bin/python'
 INJECT_DIR = os.path.join(ROOT, 'vlib', 'inject')
 
 FLOOR_PER_OP = 1e-10
+BUDGET_GRACE_S = 240.0
 MAX_SIM_QUDITS = 9
 
 
@@ -928,7 +929,15 @@ def exec_cases(
             out[i] = {'status': 'skipped'}
             return
         try:
-            out[i] = exec_case(cases[i], timeouts[i], hashseed)
+            eff = timeouts[i]
+            if deadline is not None:
+                # a case started close to the budget's end may overrun it by
+                # at most BUDGET_GRACE_S; cut that way it counts as skipped
+                eff = min(eff, max(60.0, deadline - time.monotonic() + BUDGET_GRACE_S))
+            r = exec_case(cases[i], eff, hashseed)
+            if r.get('status') == 'timeout' and eff < timeouts[i]:
+                r = {'status': 'skipped', 'budget_cut': True, 'wall': r.get('wall')}
+            out[i] = r
         except BaseException as e:  # noqa
             out[i] = {'status': 'harness_error', 'exc': type(e).__name__, 'msg': str(e)[:300]}
 
